@@ -79,6 +79,17 @@ def columnfile_case(run, seed, idx, columnfile, parameters):
             tcls[t] = c
     n = int([1, 2, 3, 17, 200, 2000][idx % 6])
     data = {t: gen_values(r, n, tcls[t]) for t in titles}
+    # integer-named columns are printed with no decimals, not required to hold integers: in a third of the cases they
+    # carry fractions and negative zeros (print precision 0.5, sign of zero kept); text route only (HDF5 stores int64)
+    rf = rng(seed, "C18", "cf-frac", idx)
+    frac_ints = [t for t in titles if tcls[t] == "INTS" and rf.random() < 0.33]
+    for t in frac_ints:
+        v = rf.uniform(-3000, 3000, n)
+        v[rf.random(n) < 0.15] = -0.0
+        half = rf.random(n) < 0.1
+        v[half] = np.round(v[half]) + 0.25                 # clearly off the rounding boundary, far from an integer
+        data[t] = v
+        run.count("int_columns_with_fractions")
     hdr = {}
     for k in range(int(r.integers(0, 5))):
         nm = "par%d" % k
@@ -112,6 +123,13 @@ def columnfile_case(run, seed, idx, columnfile, parameters):
                 got = np.asarray(back.getcolumn(t), float)
                 err = np.abs(got - written[t])
                 tol = col_tol(tcls[t], written[t]) * (cyc + 1)
+                if t in frac_ints:
+                    tol = 0.5 * (1 + 1e-9) + np.spacing(np.abs(written[t]))      # "%.0f": nearest integer; idempotent
+                z = written[t] == 0
+                if z.any() and not np.array_equal(np.signbit(got[z]), np.signbit(written[t][z])):
+                    V("text:sign-of-zero", "column %s (%s): a zero was written as %r and read back with the other sign"
+                      % (t, tcls[t], float(written[t][z][0])))
+                    break
                 if (err > tol).any():
                     k = int(np.argmax(err - tol))
                     V("text:value:" + tcls[t], "column %s (%s) row %d written %r read %r after %d cycle(s)"
@@ -123,7 +141,12 @@ def columnfile_case(run, seed, idx, columnfile, parameters):
                     V("text:header-parameter", "header parameter %s=%r (%s) read back as %r (%s)"
                       % (k, v, type(v).__name__, g, type(g).__name__))
             cur = back
-        # ---------------- hdf
+        # ---------------- hdf (integer-typed columns are stored as int64: give them integer values again)
+        if frac_ints:
+            for t in frac_ints:
+                data[t] = np.round(data[t]) + 0.0
+            cf = columnfile.colfile_from_dict({t: data[t].copy() for t in titles})
+            cf.parameters = parameters.parameters(**hdr)
         h5 = os.path.join(d, "c.h5")
         with contextlib.redirect_stdout(io.StringIO()):
             columnfile.colfile_to_hdf(cf, h5, name="peaks")
